@@ -865,6 +865,7 @@ def run(chk):
     chk.extra["fault_kinds_without_a_call_in_the_binary"] = sorted(
         "%s:%s:%s" % s for s in spec_sched - seen_sched)
     chk.extra["schedules_not_hit_after_retries"] = unrealised[:40]
+    chk.extra["schedules_not_hit_count"] = len(unrealised)
     chk.extra["strace_runs"] = len(all_outs)
     chk.extra["runs_with_fault_fired"] = sum(1 for o in all_outs if o["an"]["fired"] is not None)
     left = sum(1 for o in all_outs if o["obs"]["leftover"] and o["run"]["op"] == "write")
